@@ -12,7 +12,7 @@ EXPLANATION = ('Static who-may-call / who-may-write censuses and guarded-act pat
 	'validated commitment_signed; a received secret is stored only after it was compared with the announced commitment point, '
 	'the channel is awaiting a revoke, and the signer validated it; a new counterparty commitment is only built when no '
 	'revocation is outstanding; holder-commitment signing is reachable only from the on-chain claim packages; the monitor '
-	'refuses off-chain holder-commitment updates after force-close. Decides these structural necessary conditions on every '
+	'refuses off-chain holder-commitment updates after force-close. Also: no_further_updates_allowed is evaluated as a boolean function over all inputs (true whenever one of the three lock-down flags is set); the flag tests of channel_ready are evaluated for every reachable AwaitingChannelReady flag word (a repeated channel_ready never rotates the commitment points). Decides these structural necessary conditions on every '
 	'path of the analysed functions, not the behaviour as a whole.')
 ASSUMPTIONS = ['external signer implementations honour the ChannelSigner contract', 'calls through dyn/generic receivers are attributed to the trait item',
 	'code under cfg(test)/fuzzing/unsafe_revoked_tx_signing is out of scope (not in the analysed build)']
